@@ -7,7 +7,15 @@ Oracle: a per-date fold over the publication history (python lists only).  Publi
 value standing at a stamp is the last non-NaN value published up to and including that stamp (NaN if there is none yet).
 what=-1 -> the value standing at the last stamp <= T; what=0 -> the value standing at the first stamp (<= T).
 `call` = dict(history=[[stamp, {date: value|'nan'}], ...], reads=[[T|None, what], ...], remerge=[version numbers])
-with stamps in half-days from STAMP0 and dates in days from DATE0."""
+with stamps in half-days from STAMP0 and dates in days from DATE0.
+
+Two input classes have their own keys:
+* several publications of one date share that date's FIRST stamp.  The store keeps one row per (date, stamp) - the one merged last - so
+  what=0 shows the value standing at the first stamp, not the value of the publication merged first ("the first value published per
+  date" read literally).  Where the two readings differ and the library shows the standing value: K_FIRST.
+* histories of more than 16 publications in which some date has two publications sharing a stamp: bi_merge orders the concatenated rows
+  with DataFrame.sort_values(updated) - quicksort, not stable beyond 16 rows - so "of several sharing a stamp the one merged last" can
+  fail.  Failures of the as-of / re-merge clauses there carry the suffix BIG."""
 import datetime, itertools, json, random, warnings
 from rac.common import Collector
 
@@ -17,6 +25,8 @@ DATE0 = D(2020, 1, 1)
 STAMP0 = D(2021, 1, 1)
 HALF = datetime.timedelta(hours=12)
 VALS = [1.0, 2.0, 'nan']
+K_FIRST = 'C17:first-published:what=0:first-stamp-shared'
+BIG = ':shared-stamp:over-16-publications'
 
 
 def isn(x):
@@ -62,6 +72,30 @@ def oracle(history, T, what):
     return out
 
 
+def first_published(history, T):
+    """what=0 read literally: per date the value of the publication merged first among those stamped <= T (NaN if that one was NaN)"""
+    out = {}
+    for s, v in history:
+        if T is not None and s > T:
+            continue
+        for d, x in v.items():
+            out.setdefault(d, x)
+    return out
+
+
+def big_class(history):
+    """more than 16 publications (rows over all versions) and some date published twice under one stamp"""
+    if sum(len(v) for _, v in history) <= 16:
+        return False
+    seen = set()
+    for s, v in history:
+        for d in v:
+            if (d, s) in seen:
+                return True
+            seen.add((d, s))
+    return False
+
+
 # ------------------------------------------------------------------ one history on the real code
 def run_job(job):
     import pandas as pd
@@ -85,6 +119,7 @@ def run_job(job):
 
     def agree(a, b):
         return set(a) == set(b) and all(same(a[d], b[d]) for d in a)
+    big = BIG if big_class(history) else ''
     try:
         store = None
         for s, v in history:
@@ -110,8 +145,21 @@ def run_job(job):
         late = [d for d in got if d not in exp]
         if late:
             out.append(('C17:leak:row-for-date-published-later', 'history %s: read as of %s shows dates %s first published later' % (job['history'], T, late), call))
+        elif what == 0:
+            lit = first_published(history, T)
+            # dates on which "first value published" read literally (the publication merged first) and the value standing at the first stamp differ:
+            # there the literal value is demanded; the library showing the standing value is the input class K_FIRST, anything else the plain clause
+            split = [d for d in exp if not same(exp[d], lit[d])]
+            rest_ok = set(got) == set(exp) and all(same(got[d], exp[d]) for d in exp if d not in split)
+            wrong = [d for d in split if d in got and not same(got[d], lit[d])]
+            if not rest_ok or any(not same(got[d], exp[d]) for d in wrong):
+                out.append(('C17:asof:what=0' + big, 'history (stamp, {date: value}) %s: bi_read(asof=%s, what=0) = %s, expected %s (value standing at the first stamp; first '
+                            'publication %s)' % (job['history'], T, got, exp, lit), call))
+            elif wrong:
+                out.append((K_FIRST, 'history (stamp, {date: value}) %s: bi_read(asof=%s, what=0) = %s, but the first value published per date is %s (dates %s: several '
+                            'publications share the first stamp and the store keeps the one merged last)' % (job['history'], T, got, lit, wrong), call))
         elif not agree(got, exp):
-            out.append(('C17:asof:what=%d' % what, 'history (stamp, {date: value}) %s: bi_read(asof=%s, what=%d) = %s, expected %s' % (job['history'], T, what, got, exp), call))
+            out.append(('C17:asof:what=%d' % what + big, 'history (stamp, {date: value}) %s: bi_read(asof=%s, what=%d) = %s, expected %s' % (job['history'], T, what, got, exp), call))
     # merging a version that is in the store leaves every read unchanged: the last version, and any earlier version whose rows are
     # all still present in the store (same date, stamp and value)
     held = set()
@@ -132,7 +180,7 @@ def run_job(job):
                 n += 1
                 after = read(store2, T, what)
                 if not agree(before, after):
-                    out.append(('C17:remerge', 'history %s: after merging version %d again, bi_read(asof=%s, what=%d) went from %s to %s' % (
+                    out.append(('C17:remerge' + big, 'history %s: after merging version %d again, bi_read(asof=%s, what=%d) went from %s to %s' % (
                         job['history'], i, T, what, before, after), call))
                     break
         except Exception as e:      # noqa
@@ -183,20 +231,56 @@ def jobs_for(tier, seed):
         k = rng.choice([2, 3, 4, 4])
         st = rng.choice(list(stamp_patterns(k)))
         jobs.append(dict(history=[[s, rng.choice(vs[nd])] for s in st]))
-    return jobs, full, nfull
+    nsmall = len(jobs)
+    # histories in which several publications share the FIRST stamp: 2-4 versions over 1-3 dates, the first m >= 2 on stamp 0, read with
+    # what = 0 and -1 on / just after the first stamp, on the last stamp and without asof
+    for _ in range(60 if quick else 5000):
+        nd = rng.choice([1, 2, 2, 3])
+        k = rng.choice([2, 3, 3, 4])
+        m = rng.randrange(2, k + 1)
+        st = [0] * m
+        for _i in range(k - m):
+            st.append(st[-1] + rng.choice([0, 2]))
+        Ts = list(dict.fromkeys([None, 0, 1, st[-1]]))
+        jobs.append(dict(history=[[s, rng.choice(vs[nd])] for s in st], reads=[(T, w) for T in Ts for w in (0, -1)], remerge=[k - 1]))
+    # stores of 20-40 rows: 3-6 versions over 8-14 observation dates (each date in a version with probability 3/4, values 1, 2, 3, NaN), stamps with
+    # ties; read without asof and on every stamp (what = -1, 0) and between stamps (what = -1); the last version merged again
+    nbig = 0
+    while nbig < (32 if quick else 3000):
+        nd = rng.randrange(8, 15)
+        k = rng.randrange(3, 7)
+        st = [0]
+        for _i in range(k - 1):
+            st.append(st[-1] + rng.choice([0, 0, 2]))
+        hist = []
+        for s_ in st:
+            v = {str(d): rng.choice([1.0, 2.0, 3.0, 'nan']) for d in range(nd) if rng.random() < .75}
+            hist.append([s_, v or {'0': 1.0}])
+        if not 20 <= sum(len(v) for _, v in hist) <= 40:
+            continue
+        nbig += 1
+        stamps = sorted(set(st))
+        reads = [(T, w) for T in [None] + stamps for w in (-1, 0)] + [(T + 1, -1) for T in stamps[:-1]]
+        jobs.append(dict(history=hist, reads=reads, remerge=[k - 1]))
+    return jobs, full, nfull, nsmall
 
 
 def run(tier, seed):
     quick = tier == 'quick'
-    jobs, full, nfull = jobs_for(tier, seed)
+    jobs, full, nfull, nsmall = jobs_for(tier, seed)
     c = Collector('C17', 'publication histories: versions are non-empty partial series over <= 3 observation dates with values in {1,2,NaN}; stamps non-decreasing with '
                   'ties (each version shares the previous stamp or is one day later); merged one by one with bi_merge(store, Bi(series, stamp)). Complete for '
                   '(dates, versions) in %s (%d histories), plus %d seeded histories of 2-4 versions over 2-3 dates. Each history is read with asof = None, half a '
                   'day before the first stamp, on every stamp and half a day after every stamp (between / after), what in {-1, 0}; then the last version and every '
                   'earlier version whose rows are all still in the store are merged again and all reads repeated. One evaluation = one bi_read; distinct by '
-                  '(history, T, what, re-merged version); non-trivial when the history has at least two versions'
-                  % (full, nfull, len(jobs) - nfull), exhaustive=False,
-                  scope='<= 4 versions, <= 3 observation dates, values {1,2,NaN}, stamps with ties, reads before/on/between/after each stamp, what in {-1,0}')
+                  '(history, T, what, re-merged version); non-trivial when the history has at least two versions. Further seeded histories: 2-4 versions over 1-3 dates whose '
+                  'first 2..k versions share the first stamp (read on / just after the first stamp, on the last stamp and without asof, what in {0,-1}; what=0 is held against both '
+                  '"the value standing at the first stamp" and, where it differs, "the publication merged first"), and stores of 20-40 rows built from 3-6 versions over 8-14 '
+                  'observation dates with values {1,2,3,NaN} and shared stamps (read without asof and on every stamp with what in {-1,0}, between stamps with what=-1, the last version '
+                  'merged again): %d such histories'
+                  % (full, nfull, nsmall - nfull, len(jobs) - nsmall), exhaustive=False,
+                  scope='<= 4 versions, <= 3 observation dates, values {1,2,NaN}, stamps with ties, reads before/on/between/after each stamp, what in {-1,0}; plus stores of 20-40 rows '
+                        '(<= 6 versions, <= 14 dates)')
     if quick:
         results = map(run_job, jobs)
     else:
